@@ -150,5 +150,5 @@ class RTCRtpTransceiver:
     def _get_mline_index(self) -> Optional[int]:
         return self.__mline_index
 
-    def _set_mline_index(self, idx: int) -> None:
+    def _set_mline_index(self, idx: Optional[int]) -> None:
         self.__mline_index = idx
